@@ -14,7 +14,7 @@ from . import seqs as Q
 from . import values as V
 from .engine import PyRaise, SExc
 from .seqs import DRef, LRef, ModelObj, SObj, SRange, SSeq, SSlice
-from .values import SAtom, SBool, SInt, SOpaque, SOpt, SReal, Sym, Unsupported, both, either, imax, imin, is_num, ite, mk_bool, mk_int, neg
+from .values import SAtom, SBool, SInt, SOpaque, SOpt, SReal, Sym, Unsupported, both, either, imax, imin, implies, is_num, ite, mk_bool, mk_int, neg
 
 
 def _raise(cls, msg=""):
@@ -288,6 +288,8 @@ def list_method(ip, st, lref: LRef, name, args, kwargs):
     n = Q.seq_len(s)
     if name == "append":
         lref.seq = Q.seq_append(s, Q.row_value(args[0]) if Q.is_nested(s) else args[0])
+        if getattr(args[0], "shared", False):
+            lref.rows_shared = True  # it now holds a row object that another list holds too (seqs.row_value)
         return None
     if name == "extend" or name == "__iadd__":
         if Q.is_nested(s):
@@ -301,6 +303,8 @@ def list_method(ip, st, lref: LRef, name, args, kwargs):
         i = st.force(args[0])
         k = ite(V._cmp("<", i, 0), imax(i + n, 0), imin(i, n))
         lref.seq = Q.seq_insert(s, k, Q.row_value(args[1]) if Q.is_nested(s) else args[1])
+        if getattr(args[1], "shared", False):
+            lref.rows_shared = True
         return None
     if name == "pop":
         i = st.force(args[0]) if args else -1
@@ -465,6 +469,10 @@ def call_method(ip, st, recv, name, args, kwargs):
             return DRef(d)
         if name == "update":
             for a in args:
+                if isinstance(a, (LRef, SSeq)) and not isinstance(Q.seq_len(a), int):
+                    raise Unsupported("dict.update(<sequence of symbolic length>) on a dict with constant keys")
+                if isinstance(a, LRef):
+                    a = a.seq
                 src = a.d if isinstance(a, DRef) else dict(a if not isinstance(a, tuple) else list(a))
                 d.update(src)
             d.update(kwargs)
@@ -617,7 +625,14 @@ def _sym_extreme(ip, st, args, kw, want_max):
     m = Q.seq_get(v, w)
     if not is_num(m):
         raise Unsupported("min/max over a symbolic sequence of non-numbers")
-    V.lazy_forall(0, n, (lambda k: Q.seq_get(v, k) <= m) if want_max else (lambda k: Q.seq_get(v, k) >= m))
+    bound = (lambda k: Q.seq_get(v, k) <= m) if want_max else (lambda k: Q.seq_get(v, k) >= m)
+    V.lazy_forall(0, n, bound)
+    # a short sequence (length provably <= 8 on this path, e.g. `max(attrs[i + 2 : i + 5])`): the bound is stated
+    # for each of its positions outright (the same fact as the lazy quantifier, instantiated at 0..7)
+    r0, _m = st._check(V._z(n) > 8, st.cfg.branch_timeout_ms)
+    if r0 == z3.unsat:
+        for k in range(8):
+            st.assume(implies(V._cmp("<", k, n), bound(k)))
     st.ghost.setdefault("extreme_witnesses", []).append(w)
     return m
 
@@ -668,6 +683,8 @@ def b_min(ip, st, *args, **kw):
         if _all_conc(xs):
             return min(xs)
         raise Unsupported("min of symbolic tuples")
+    if len(xs) == 1:
+        return xs[0]  # min([x]) is x (as in b_max)
     return imin(*xs)
 
 
@@ -684,6 +701,8 @@ def b_max(ip, st, *args, **kw):
         _raise(ValueError, "max() arg is an empty sequence")
     if any(x is None for x in xs):
         _raise(TypeError, "'>' not supported between NoneType and int")
+    if len(xs) == 1:
+        return xs[0]  # max([x]) is x (values.imax with ONE argument takes it for the sequence to maximise)
     return imax(*xs)
 
 
@@ -873,6 +892,12 @@ def b_isinstance(ip, st, x, cls):
             return ip.task.opaque_isinstance(ip, st, x, c)
         if isinstance(x, SExc):
             return issubclass(x.cls, c)
+        if isinstance(x, ModelObj) and getattr(x, "py_class", None) is not None:
+            return issubclass(x.py_class, c)  # a model of a builtin type (pyvc.fmap.SFMap models dict)
+        if isinstance(x, ModelObj) and hasattr(x, "py_isinstance"):
+            # a modelled value that stands for an instance of a builtin class (e.g. a modelled str): the model says
+            # whether that class is a subclass of c, as CPython's isinstance does for the value it stands for
+            return x.py_isinstance(c)
         if isinstance(x, Sym):
             raise Unsupported(f"isinstance of {type(x).__name__}")
         from .interp import FnVal
@@ -885,6 +910,26 @@ def b_isinstance(ip, st, x, cls):
     for c in classes:
         r = either(r, one(c))
     return r
+
+
+def b_dict(ip, st, *args, **kwargs):
+    """dict(x): a new dict with x's entries in x's order -- for a dict with symbolic keys (pyvc.fmap.SFMap) and for a
+    constant-key dict (DRef); anything else as before (native evaluation on concrete data, else Unsupported)."""
+    if len(args) == 1 and not kwargs:
+        x = st.force(args[0])
+        if isinstance(x, ModelObj) and getattr(x, "py_class", None) is dict:
+            return x.py_call(ip, st, "copy", [], {})
+        if isinstance(x, DRef):
+            return DRef(x.d)
+    if _all_conc(args) and _all_conc(list(kwargs.values())):
+        try:
+            return dict(*args, **kwargs)
+        except Exception as ex:  # noqa: BLE001
+            _raise(type(ex), str(ex))
+    r = ip.task.call_real(ip, st, dict, list(args), kwargs)  # a contract's own model of dict(<its model value>)
+    if r is not NotImplemented:
+        return r
+    raise Unsupported("call of 'dict' with symbolic arguments")
 
 
 def b_slice(ip, st, *args):
@@ -1185,6 +1230,7 @@ TABLE = {
     list: b_list,
     tuple: b_tuple,
     isinstance: b_isinstance,
+    dict: b_dict,
     slice: b_slice,
     enumerate: b_enumerate,
     zip: b_zip,
@@ -1228,6 +1274,8 @@ def call_builtin(ip, st, f, args, kwargs):
         return read(names[0]) if len(names) == 1 else tuple(read(n) for n in names)
     if isinstance(f, type) and issubclass(f, BaseException):
         return SExc(f, args)
+    if is_namedtuple_class(f):
+        return namedtuple_new(f, args, kwargs)
     if isinstance(f, tuple) and f and f[0] == "wraps":
         return args[0]  # functools.wraps(fn)(wrapper) -> wrapper
     # a real repository function object (module-level): map to its AST
@@ -1258,6 +1306,48 @@ def call_builtin(ip, st, f, args, kwargs):
         except Exception as ex:  # noqa: BLE001
             _raise(type(ex), str(ex))
     raise Unsupported(f"call of {getattr(f, '__qualname__', f)!r} with symbolic arguments")
+
+
+def is_namedtuple_class(f):
+    return isinstance(f, type) and issubclass(f, tuple) and f is not tuple and isinstance(getattr(f, "_fields", None), tuple) and f.__new__ is not tuple.__new__ and "__init__" not in f.__dict__
+
+
+class NTuple(tuple):
+    """Value of a `typing.NamedTuple` / `collections.namedtuple` constructor call: a tuple (every tuple operation
+    -- unpacking, indexing, len, iteration, equality with a plain tuple -- is the tuple's own) that remembers its
+    class, so that the interpreter can also read a component by field name (`Interp.getattr`)."""
+
+    nt_cls = None
+
+    def __new__(cls, nt_cls, items):
+        self = tuple.__new__(cls, items)
+        self.nt_cls = nt_cls
+        return self
+
+
+def namedtuple_new(cls, args, kwargs):
+    """`cls(*args, **kwargs)` for a NamedTuple class: CPython's generated `__new__(_cls, f1, f2=default, ...)` binds
+    the arguments like an ordinary signature over `_fields` with `_field_defaults`, raises TypeError for a missing /
+    surplus / repeated / unknown argument, and the components are stored unconverted (no coercion, no validation).
+    Dual use: the components may be symbolic values (they are only stored) -- cross-checked against the real classes
+    on plain values by the static check `namedtuple-model-agrees-with-cpython` of contracts/C07_listbox.py."""
+    fields = cls._fields
+    defaults = getattr(cls, "_field_defaults", {})
+    if len(args) > len(fields):
+        _raise(TypeError, f"{cls.__name__}() takes {len(fields)} positional arguments but {len(args)} were given")
+    vals = dict(zip(fields, args))
+    for k, v in kwargs.items():
+        if k not in fields:
+            _raise(TypeError, f"{cls.__name__}() got an unexpected keyword argument {k!r}")
+        if k in vals:
+            _raise(TypeError, f"{cls.__name__}() got multiple values for argument {k!r}")
+        vals[k] = v
+    for k in fields:
+        if k not in vals:
+            if k not in defaults:
+                _raise(TypeError, f"{cls.__name__}() missing required argument {k!r}")
+            vals[k] = defaults[k]
+    return NTuple(cls, [vals[k] for k in fields])
 
 
 def _native_ok(f, args):
